@@ -159,6 +159,11 @@ Wir nennen die generische Kombination aus
 einen Vektor, und erstellen sie so:
 	"der Nullvektor" oder
 	"Vektor(<x>, <y>)"
+Wir nennen die generische Kombination aus
+	dem T l,
+	dem T r,
+einen Zwilling, und erstellen sie so:
+	"Zwilling(<l>, <r>)"
 Die generische Funktion erstes mit dem Parameter p vom Typ T-R-Paar, gibt ein T zurück, macht:
 	Gib a von p zurück.
 Und kann so benutzt werden:
@@ -171,6 +176,9 @@ Die Zahl-Kiste k ist Kiste(1).
 Der Zahl-Text-Paar p ist Paar(1, "zwei").
 Der Zahl-Vektor v ist der Nullvektor.
 Die (Zahl-Kiste)-Kiste kk ist Kiste(k).
+Der Zahl-Zwilling zw ist Zwilling(1, 2).
+Der Text-Zwilling tz ist Zwilling("a", "b").
+Schreibe (l von zw) auf eine Zeile.
 Schreibe (das Erste von p) auf eine Zeile.
 Schreibe (der Inhalt von k) auf eine Zeile.
 Schreibe (der Inhalt von (der Inhalt von kk)) auf eine Zeile.
@@ -368,6 +376,15 @@ def token_mutants(text, toks, rng, limit=None, pairs=0):
             continue
         for j in rng.sample(others, min(2, len(others))):
             muts.append(("subst:%d<%d" % (i, j), text[:a] + text[toks[j][0]:toks[j][1]] + text[e:]))
+    # a literal or a name replaced by a literal of another type / an undeclared name: the ill-typed or unresolved argument
+    import re as _re
+    for i in range(n):
+        a, e, _ = toks[i]
+        w = text[a:e]
+        if _re.fullmatch(r'\d+|\d+,\d+|"[^"]*"|\'[^\']*\'|wahr|falsch', w):
+            for kind, rep in (("text", '"zwei"'), ("zahl", "7"), ("komma", "2,5"), ("buchstabe", "'c'"), ("wahr", "wahr"), ("name", "gibts_nicht")):
+                if rep != w and rng.random() < 0.5:
+                    muts.append(("lit:%d:%s" % (i, kind), text[:a] + rep + text[e:]))
     # transplant: a whole statement of another kind placed where a statement (or the single statement of a Wenn / loop) may start
     for i in range(n):
         a, e, _ = toks[i]
@@ -388,7 +405,15 @@ def token_mutants(text, toks, rng, limit=None, pairs=0):
         else:
             muts.append(("dupdel:%d,%d" % (i, j), text[:e] + " " + text[a:e] + text[e:a2] + text[e2:]))
     if limit and len(muts) > limit:
-        muts = rng.sample(muts, limit)
+        # a quota per kind of mutant, so that the rarer kinds are always present
+        kinds = {}
+        for m in muts:
+            kinds.setdefault(m[0].split(":")[0], []).append(m)
+        share = max(1, limit // len(kinds))
+        out = []
+        for k in sorted(kinds):
+            out += kinds[k] if len(kinds[k]) <= share else rng.sample(kinds[k], share)
+        muts = out
     return muts
 
 
